@@ -2,6 +2,7 @@
 use crate::engine::{PropSpec, Tier};
 
 pub mod bdd;
+pub mod cli;
 pub mod compile;
 pub mod counts;
 pub mod history;
@@ -25,6 +26,7 @@ pub fn spec(id: &str, tier: Tier) -> Option<PropSpec> {
         "C11" => history::c11(tier),
         "C13" => counts::c13(tier),
         "C14" => history::c14(tier),
+        "C15" => cli::c15(tier),
         "C18" => nogood::c18(tier),
         "C19" => stream::c19(tier),
         "C20" => stream::c20(tier),
